@@ -266,6 +266,157 @@ func (o *oracles) restartAndCheck(dir string, before, after *modelAt, what strin
 		return
 	}
 	o.compareRestart(r.State, vr.View, rc.G, before, after, what, true)
+	if s.res.Viol != nil || !o.furtherHistory {
+		return
+	}
+	o.secondLife(dir, r.State, vr.View, what)
+}
+
+// secondLife: "followed by any further history" — after the crash restart
+// settled, a few more acknowledged operations (a new tag, on-demand
+// conversions that append to the converter cache), then a clean restart on
+// the same directory; everything acknowledged in either life must be there.
+func (o *oracles) secondLife(dir string, st1 *manager.VerifState, v1 *ViewSig, what string) {
+	s := o.s
+	what += ", then further operations and a second restart"
+	if r := s.call(CBarrier, Op{K: "New", Name: dir}); r.Err != "" {
+		o.violate("restart", "second-restart-failed", what+": manager.New failed: "+r.Err)
+		return
+	}
+	s.alive = true
+	s.settle()
+	drain := func() {
+		for n := 0; n < 400; n++ {
+			var st stepRef
+			found := false
+			for _, e := range s.enabled() {
+				if e.kind != "api" {
+					st, found = e, true
+					break
+				}
+			}
+			if !found {
+				return
+			}
+			s.execQuiet(st)
+		}
+	}
+	drain()
+	sv := simrt.Save()
+	defer simrt.Restore(sv)
+	addErr := s.call(CMut, Op{K: "AddTag", Name: "tag/z2", Color: "#0f0f0f", Def: "cbytes:1:"}).Err
+	s.settle()
+	converted := map[string]string{} // conv/stream -> payload digest
+	if len(s.plan.Converters) > 0 {
+		s.call(CView, Op{K: "OpenView", V: 900})
+		n := 0
+		for _, sl := range v1.Streams {
+			if sl.Bytes == 0 || n >= 3 {
+				continue
+			}
+			conv := s.plan.Converters[n%len(s.plan.Converters)]
+			r := s.call(CView, Op{K: "StreamData", V: 900, Stream: sl.ID, Conv: conv})
+			s.settle()
+			if r.Err == "" && r.Found {
+				converted[fmt.Sprintf("%s/%d", conv, sl.ID)] = sl.Digest
+				n++
+			}
+		}
+		s.call(CView, Op{K: "ReleaseView", V: 900})
+		s.settle()
+	}
+	drain()
+	s.call(CView, Op{K: "DropViews"})
+	s.call(CBarrier, Op{K: "Close"})
+	s.alive = false
+	s.killJobs()
+	if r := s.call(CBarrier, Op{K: "New", Name: dir}); r.Err != "" {
+		o.violate("restart", "second-restart-failed", what+": manager.New failed: "+r.Err)
+		return
+	}
+	s.alive = true
+	s.settle()
+	drain()
+	r2 := s.call(CBarrier, Op{K: "State"})
+	v2 := s.call(CBarrier, Op{K: "FreshView", Convs: s.plan.Converters})
+	s.call(CBarrier, Op{K: "Close"})
+	s.alive = false
+	s.killJobs()
+	if r2.State == nil || v2.View == nil {
+		s.res.Infra = "second restart probe failed"
+		return
+	}
+	// tags of the first life plus the new one
+	p1, p2 := project(st1), project(r2.State)
+	if addErr == "" {
+		p1["tag/z2"] = tagProj{Def: "cbytes:1:", Color: "#0f0f0f"}
+	}
+	for _, n := range unionKeys(p1, p2) {
+		x, okx := p1[n]
+		y, oky := p2[n]
+		if okx != oky || x.Def != y.Def || x.Color != y.Color || fmt.Sprint(x.Convs) != fmt.Sprint(y.Convs) {
+			if o.violate("restart-state", "second-life-tags", fmt.Sprintf("%s: tag %s was %+v (present=%v), after the second restart %+v (present=%v)", what, n, x, okx, y, oky)) {
+				return
+			}
+		}
+	}
+	// streams unchanged
+	k1 := map[uint64]string{}
+	for _, sl := range v1.Streams {
+		k1[sl.ID] = sl.Key
+	}
+	if v2.View.Err != "" {
+		o.violate("restart-view", "view-error", what+": "+v2.View.Err)
+		return
+	}
+	if len(v2.View.Streams) != len(v1.Streams) {
+		if o.violate("restart-streams", "second-life-streams", fmt.Sprintf("%s: %d visible streams, %d before the second restart", what, len(v2.View.Streams), len(v1.Streams))) {
+			return
+		}
+	}
+	dg := map[uint64]string{}
+	for _, sl := range v2.View.Streams {
+		dg[sl.ID] = sl.Digest
+		if k1[sl.ID] != sl.Key {
+			if o.violate("restart-streams", "second-life-streams", fmt.Sprintf("%s: stream %d changed across a quiet restart", what, sl.ID)) {
+				return
+			}
+		}
+	}
+	// converter caches: what was converted in the second life is still there, and nothing cached is garbage
+	for key, want := range converted {
+		conv, idStr, _ := strings.Cut(key, "/")
+		var id uint64
+		fmt.Sscan(idStr, &id)
+		got, ok := v2.View.Conv[conv][id]
+		if !ok {
+			if o.violate("restart-cache", "conversion-lost", fmt.Sprintf("%s: the output of converter %s for stream %d, stored before a clean shutdown, is gone", what, conv, id)) {
+				return
+			}
+			continue
+		}
+		if got != want {
+			if o.violate("restart-cache", "conversion-garbled", fmt.Sprintf("%s: converter %s stream %d: cached output is for payload %s, stored for %s", what, conv, id, got, want)) {
+				return
+			}
+		}
+	}
+	for conv, m := range v2.View.Conv {
+		for id, d := range m {
+			if d == "empty" && dg[id] == VconvDigest(nil) {
+				continue
+			}
+			if _, mine := converted[fmt.Sprintf("%s/%d", conv, id)]; mine {
+				continue
+			}
+			if strings.HasPrefix(d, "!") {
+				if o.violate("restart-cache", "cache-garbage", fmt.Sprintf("%s: converter %s stream %d: cached output is unreadable or malformed (%s)", what, conv, id, d)) {
+					return
+				}
+			}
+		}
+	}
+	o.s.res.Count("c12_second_life_checks", 1)
 }
 
 func projTags(st *manager.VerifState) map[string]tagProj { return project(st) }
